@@ -12,3 +12,85 @@ pub async fn decode_and_verify_responses(
 ) -> Result<Vec<ExtendedHeader>, HeaderExError> {
     crate::p2p::verif_header_ex::decode_and_verify_responses(request, responses).await
 }
+
+// ---------------------------------------------------------------------------------------
+// server handler
+
+use std::sync::Arc;
+use std::task::{Context, Poll};
+
+use futures::{AsyncRead, AsyncWrite};
+use libp2p::PeerId;
+
+use crate::store::Store;
+
+/// The real `HeaderExServerHandler` over store `S`, with a response sender that records
+/// every batch the handler asks to send as `(channel, responses)`.
+pub struct VServer<S: Store + 'static>(crate::p2p::verif_header_ex::VerifServer<S>);
+
+impl<S: Store + 'static> VServer<S> {
+    pub fn new(store: Arc<S>) -> Self {
+        VServer(crate::p2p::verif_header_ex::VerifServer::new(store))
+    }
+
+    /// `HeaderExServerHandler::on_request_received` (from a random peer id; the handler
+    /// only logs it); `channel` identifies the request in the recorded output.
+    pub fn on_request_received(&mut self, request: HeaderRequest, channel: u64) {
+        self.0
+            .on_request_received(PeerId::random(), request, channel)
+    }
+
+    /// `HeaderExServerHandler::poll`.
+    pub fn poll(&mut self, cx: &mut Context<'_>) -> Poll<()> {
+        self.0.poll(cx)
+    }
+
+    /// `HeaderExServerHandler::on_stop`.
+    pub fn on_stop(&mut self) {
+        self.0.on_stop()
+    }
+
+    /// Number of request tasks not yet completed.
+    pub fn pending_tasks(&self) -> usize {
+        self.0.pending_tasks()
+    }
+
+    /// Drains the recorded `(channel, responses)` batches.
+    pub fn take_sent(&mut self) -> Vec<(u64, Vec<HeaderResponse>)> {
+        self.0.take_sent()
+    }
+}
+
+// ---------------------------------------------------------------------------------------
+// wire codec (`HeaderCodec`)
+
+pub const REQUEST_SIZE_LIMIT: usize = crate::p2p::verif_header_ex::REQUEST_SIZE_LIMIT;
+pub const RESPONSE_SIZE_LIMIT: usize = crate::p2p::verif_header_ex::RESPONSE_SIZE_LIMIT;
+
+pub async fn codec_read_request<T>(io: &mut T) -> std::io::Result<HeaderRequest>
+where
+    T: AsyncRead + Unpin + Send,
+{
+    crate::p2p::verif_header_ex::read_request(io).await
+}
+
+pub async fn codec_read_response<T>(io: &mut T) -> std::io::Result<Vec<HeaderResponse>>
+where
+    T: AsyncRead + Unpin + Send,
+{
+    crate::p2p::verif_header_ex::read_response(io).await
+}
+
+pub async fn codec_write_request<T>(io: &mut T, req: HeaderRequest) -> std::io::Result<()>
+where
+    T: AsyncWrite + Unpin + Send,
+{
+    crate::p2p::verif_header_ex::write_request(io, req).await
+}
+
+pub async fn codec_write_response<T>(io: &mut T, resps: Vec<HeaderResponse>) -> std::io::Result<()>
+where
+    T: AsyncWrite + Unpin + Send,
+{
+    crate::p2p::verif_header_ex::write_response(io, resps).await
+}
